@@ -27,3 +27,18 @@ def widen_reprepare_trace(trace, from_n, to_n):
         for h in extra:
             ev["post"]["pool"][h] = "ok"
     return trace
+
+
+def follow(nodes, edges, start, steps):
+    """The path from node `start` whose i-th edge leads to a state whose `act` matches steps[i] (a dict of act fields).
+    Returns the list of node ids, or raises MachineryError when the specification has no such behaviour."""
+    succ = {}
+    for s, d, _ in edges:
+        succ.setdefault(s, []).append(d)
+    path = [start]
+    for want in steps:
+        nxt = [d for d in succ.get(path[-1], ()) if all(nodes[d]["act"].get(k) == v for k, v in want.items())]
+        if not nxt:
+            raise tlc.MachineryError("self-test behaviour not in the state graph at step %r" % (want,))
+        path.append(nxt[0])
+    return path
